@@ -725,7 +725,9 @@ attrsLoop:
 						}
 
 						if elementName == "a" && htmlAttr.Key == "target" {
-							if htmlAttr.Val == "_blank" {
+							// browsers match the keyword without regard to
+							// ASCII case ("_BLANK" opens a new context too)
+							if len(htmlAttr.Val) == len("_blank") && strings.EqualFold(htmlAttr.Val, "_blank") {
 								targetBlankFound = true
 							}
 							if addTargetBlank && !targetBlankFound {
